@@ -72,7 +72,10 @@ def r_shift(ctx, which=('obtain_latters', 'obtain_formers'), with_latter=False):
         from ..ctx import loop_vars
         lv = [t for t in loop_vars(f, loop).values() if t is not None and t[0] == 'iter' and is_call(t[1], 'builtins.range')]
         it = lv[0][1] if lv else f.term(loop.stmt.iter, loop)
-        run.check(bool(lv) and it[2] == (('c', 4),), 'R-SHIFT', f, 'letter-range', loop.lineno,
+        if not lv:
+            run.undecided('R-SHIFT', f, 'letter-range', loop.lineno, 'the letter loop iterates %s' % show(f.term(loop.stmt.iter, loop))[:60])
+        else:
+          run.check(bool(lv) and it[2] == (('c', 4),), 'R-SHIFT', f, 'letter-range', loop.lineno,
                   'letters enumerated as 0..3 in A,C,G,T order',
                   'the appended letter ranges over %s, not over the 4 letter indices' % show(f.term(loop.stmt.iter, loop)),
                   inputs='every vertex', nontrivial=False)
@@ -377,7 +380,10 @@ def r_mask(ctx):
         # allocation
         allocs = [TermBuilder(f, x.node).def_term(x.id) for x in f.defs if x.name == mask_name and x.kind == 'assign']
         rows = [mask_alloc(a) for a in allocs if a is not None]
-        run.check(len(rows) == 1 and rows[0] is not None and is_pow4k(rows[0], K), 'R-MASK', f, 'mask-size', nd.lineno,
+        if not rows or rows[0] is None or len(rows) != 1:
+            run.undecided('R-MASK', f, 'mask-size', nd.lineno, 'the allocation of the mask is not recognised: %s' % [show(a_)[:40] for a_ in allocs if a_])
+        else:
+          run.check(len(rows) == 1 and rows[0] is not None and is_pow4k(rows[0], K), 'R-MASK', f, 'mask-size', nd.lineno,
                   'mask allocated with 4^K entries',
                   'the mask is allocated with %s entries, not 4^observed_length' % [show(r) if r else None for r in rows],
                   inputs='every observed length')
@@ -416,12 +422,25 @@ def r_mask(ctx):
                   'the discovery loop ranges over %s, not over all 4^K indices' % show(it),
                   inputs='the k-mers the loop skips')
         idx_ok = tgt[0] == 'sub' and tgt[2] == i
-        run.check(idx_ok, 'R-MASK', f, 'store-index', nd.lineno, 'mask[i] is stored for the loop index i',
+        from .repair import affine as _aff
+        ia_ = _aff(tgt[2]) if tgt[0] == 'sub' else None
+        wit_idx = not idx_ok and ia_ is not None and i is not None and set(ia_) <= {i, 1} and ia_.get(i, 0) != 0
+        if not idx_ok and not wit_idx:
+            run.undecided('R-MASK', f, 'store-index', nd.lineno, 'the verdict is stored at %s, which is not the loop index in a recognised form' % show(tgt)[:60])
+        else:
+          run.check(idx_ok, 'R-MASK', f, 'store-index', nd.lineno, 'mask[i] is stored for the loop index i',
                   'the verdict is stored at %s, not at the loop index' % show(tgt), inputs='every k-mer')
         arg = val[2][0] if val[2] else (val[3][0][1] if val[3] else None)
         ok = arg is not None and call_name(arg) and call_name(arg).endswith('.number_to_dna') \
             and strip_int(call_arg(arg, 0, 'decimal_number')) == i and call_arg(arg, 1, 'dna_length') == K
-        run.check(bool(ok), 'R-MASK', f, 'verdict-on-own-kmer', nd.lineno, 'verdict is taken on number_to_dna(i, K)',
+        is_n2d = arg is not None and call_name(arg) is not None and call_name(arg).endswith('.number_to_dna')
+        rev_ = arg is not None and any((x[0] == 'sub' and x[2] == ('slice', ('c', None), ('c', None), ('c', -1))) or
+                                       is_call(x, 'builtins.reversed') for x in walk_term(arg))
+        if not ok and not is_n2d and not rev_:
+            run.undecided('R-MASK', f, 'verdict-on-own-kmer', nd.lineno, 'the judged string %s is not number_to_dna(index, K) in a recognised form'
+                          % (show(arg)[:60] if arg else None))
+        else:
+          run.check(bool(ok), 'R-MASK', f, 'verdict-on-own-kmer', nd.lineno, 'verdict is taken on number_to_dna(i, K)',
                   'the filter judges %s, not the k-mer of the index being stored' % (show(arg) if arg else None),
                   inputs='every k-mer')
     nd = verdict_stores[0][0]
